@@ -22,22 +22,61 @@ RULE = ("C01-style trees (files without information, several expressions per fil
         "assignments (<= 10 atoms); non-trivial = >= 3 File sections and >= 1 expression; distinct = distinct (carriers, "
         "expressions, options)")
 ASSUMPTIONS = ["the tag-value parser in models/spdx_tv.py stands in for an SPDX validator (spdx-tools is not installed)",
-               "unreadable files, names containing a newline and licence texts containing </text> are not generated"]
+               "unreadable files and licence texts containing </text> are not generated in the trees; a line break in a file name and "
+               "'</text>' in a copyright line are dedicated cases (the former is a listed finding)"]
 MIN_NONTRIVIAL = {"quick": 100, "thorough": 4000}
 DEFECTS = [d for d in trees.DEFECTS if d != "unreadable"]
 
 
 def generate(tier, seed):
     n = 700 if tier == "quick" else 40000
-    return [{"k": k} for k in range(n)]
+    return [{"k": k} for k in range(n)] + [{"k": k, "hostile": h} for k, h in enumerate(["name-newline", "name-cr", "holder-text-end"])]
 
 
 def setup(ctx):
     ctx.state["styles"] = trees.style_table()
 
 
+def run_hostile(case, ctx, res):
+    """Inputs the tag-value format has no way to carry: a line break in a file name (listed finding); '</text>' inside a copyright
+    line is read leniently by the parser used here (up to the last end marker of the line) and passes."""
+    h = case["hostile"]
+    root = ctx.scratch / f"c18-hostile-{case['k']}"
+    (root / "LICENSES").mkdir(parents=True)
+    (root / "LICENSES" / "MIT.txt").write_text("text\n")
+    holder = "2020 J </text> more" if h.startswith("holder") else "2020 J"
+    name = {"name-newline": "new\nline.py", "name-cr": "carriage\rreturn.py"}.get(h, "plain.py")
+    (root / name).write_text(f"# SPDX-License-Identifier: MIT\n# SPDX-FileCopyrightText: {holder}\n")
+    (root / "other.py").write_text("# SPDX-License-Identifier: MIT\n# SPDX-FileCopyrightText: 2021 K\n")
+    try:
+        r = run_cli(["--no-multiprocessing", "--root", str(root), "spdx"], cwd=str(root))
+        res.n = 1
+        if r.escaped or r.exit_code != 0:
+            res.violation("spdx-exit-status", f"reuse spdx exit {r.exit_code} {r.exc_type} on {h}", **r.brief())
+            return
+        key = "line-break-in-file-name-breaks-tag-value" if h.startswith("name") else "text-end-marker-in-copyright"
+        try:
+            header, files, lics = tv.split_document(tv.parse_tv(r.stdout))
+            names = sorted(f["FileName"] for f in files)
+            cops = sorted(f.get("FileCopyrightText", "") for f in files)
+        except tv.TVError as e:
+            res.violation(key, f"{h}: the document does not parse as tag-value ({e})", doc=r.stdout[:900])
+            return
+        want = sorted("./" + n for n in (name, "other.py"))
+        if names != want or (h.startswith("holder") and not any(holder in c for c in cops)):
+            res.violation(key, f"{h}: sections {names}, copyright texts {cops}; the project has {want} and holder {holder!r}", doc=r.stdout[:900])
+            return
+        res.sigs.add(short_hash("hostile", h))
+        res.cell("hostile:" + h)
+    finally:
+        shutil.rmtree(root, ignore_errors=True)
+
+
 def run_case(case, ctx):
     res = Res()
+    if case.get("hostile"):
+        run_hostile(case, ctx, res)
+        return res.out()
     k = case["k"]
     rng = rng_for(ctx.seed, "c18", k)
     defects = [rng.choice(DEFECTS) for _ in range(rng.choice([0, 0, 1, 2, 3]))]
